@@ -93,6 +93,9 @@ def run(sc):
     on_desc = dict(base, cls='dt_on', pastify=True)
     off_desc = dict(base, cls='dt_off')
     has_future = any(x[0] in sg.FUTURE_OPS for x in sg.walk(ast))
+    if not common.ref_defined_on_prefixes([ast], data, n):
+        r.discarded = True
+        return r
     try:
         mon = M.build(on_desc)
         r.api_calls += 3
